@@ -318,6 +318,24 @@ def check(repo, res, tier):
     # --------------------------------------------------------------- S4 R-CACHE
     _check_cache(repo, res, cls, regs, gens, D, all_funcs)
 
+    # ------------------------------------------------------------- S6 R-PARAMSEQ
+    # "changing parameter values" is one of the modifications of the property: after any sequence of
+    # assignments the value list the evaluators read at call time is the current one (shared with C09)
+    from . import C09
+    setter = repo.resolve_setter(cls, "parameters")
+    res.rule("R-PARAMSEQ", "after any sequence of parameter assignments the value list read by the evaluators holds the last value given per name")
+    bad3, n3 = C09.sequences_of_three(setter)
+    res.check(not bad3, "R-PARAMSEQ", setter, "successive-triples(%d sequences)" % n3,
+              "the evaluators' value list is current after every sequence of three assignments in mixed formats",
+              "after some sequences of parameter assignments the evaluators keep using an old value (%d of %d), e.g. %s" % (len(bad3), n3, "; ".join(bad3[:2])),
+              node=setter.node)
+    # the setter refreshes the symbol order used at compile time (the named exception for _sp relies on it)
+    calls_set_sp = [n for n in walk_no_nested(setter.node) if isinstance(n, ast.Call) and is_self_attr(n.func, "set_sp")]
+    scfg = cfg_of(setter)
+    ok = bool(calls_set_sp) and scfg.must_pass_after(scfg.entry, [dataflow_of(setter).node_containing(calls_set_sp[0])])
+    res.check(ok, "R-PARAMSEQ", setter, "refreshes-symbol-order", "the parameters setter rebuilds the compile-time symbol order on every path",
+              "the parameters setter does not call set_sp() on every path: the named exception for self._sp no longer holds")
+
 
 def _discharged(repo, cls, f, site, always, depth, seen):
     cfg, df = cfg_of(f), dataflow_of(f)
